@@ -211,6 +211,18 @@ func handlePanic(t *T, recovered any) {
 		return
 	}
 
+	// classifying and logging the panic value calls its methods (Is, Unwrap, Error): they are scenario
+	// code and may panic themselves, for example on a nil pointer receiver
+	defer func() {
+		if r := recover(); r != nil {
+			t.logger.Error("recovered panic in scenario: the panic value could not be inspected",
+				log.IterationAttr(t.Iteration),
+				log.ErrorAnyAttr(r),
+			)
+			t.Fail()
+		}
+	}()
+
 	err, isError := recovered.(error)
 	switch {
 	case isError && errors.Is(err, errFailNow):
